@@ -125,6 +125,14 @@ impl<'a> Worker<'a> {
             WorkStatus::NotStarted => {
                 let source_display = work_item.source().display();
 
+                if !self.configuration().should_apply_rule(work_item.source()) {
+                    // a file that the configuration excludes is not read at all: whatever
+                    // it contains cannot make the run fail
+                    log::trace!("[{}] skip file", source_display);
+                    work_item.status = WorkStatus::done();
+                    return Ok(());
+                }
+
                 let content = self.resources.get(work_item.source())?;
 
                 let parser = self.configuration.build_parser();
